@@ -594,11 +594,6 @@ func (p *Proc) Link(oldpath, newpath string) syscall.Errno {
 	}
 	if e == 0 {
 		cold = pathOf(of.dentry)
-		if of.dentry.inode.IsDir() {
-			e = syscall.EPERM
-		}
-	}
-	if e == 0 {
 		nf, e = p.resolve(AT_FDCWD, newpath, false)
 	}
 	if e == 0 {
@@ -609,6 +604,8 @@ func (p *Proc) Link(oldpath, newpath string) syscall.Errno {
 			e = syscall.EEXIST
 		case !p.may(nf.parent, permW|permX):
 			e = syscall.EACCES
+		case of.dentry.inode.IsDir():
+			e = syscall.EPERM
 		}
 	}
 	if e != 0 {
